@@ -48,12 +48,14 @@ pub fn run_one(
             // genesis itself is judged by the monitors too; a violation there is reported
             let swarm = match profile.name {
                 "TX" | "AUTH" => Swarm::tx(&mut rng, profile.faults),
+                "ORA" => Swarm::ora(&mut rng, profile.faults),
                 _ => Swarm::mkt(&mut rng, profile.faults),
             };
             let (adm, adm_share) = match profile.name {
                 "ADM" => (crate::actors_adm::AdmSwarm::adm(&mut rng), rng.range(250, 600) as u32),
                 "PAUSE" => (crate::actors_adm::AdmSwarm::pause(&mut rng), rng.range(400, 800) as u32),
                 "AUTH" => (crate::actors_adm::AdmSwarm::adm(&mut rng), rng.range(200, 400) as u32),
+                "EMI" => (crate::actors_adm::AdmSwarm::emi(&mut rng), rng.range(300, 600) as u32),
                 _ => (crate::actors_adm::AdmSwarm::none(), 0),
             };
             let steps = rng.range(50, 400);
